@@ -45,33 +45,47 @@ def showLog (l : List (Nat × Nat)) : String := commaOr (l.reverse.map fun p => 
 def showArr (a : Array Nat) : String := commaOr (a.toList.map toString)
 def showOptNat : Option Nat → String | some e => toString e | none => "none"
 
-def showAns : Ans → String
-  | .ok => "ok"
-  | .okId e => s!"ok {e}"
-  | .min r => s!"min {showOptNat r}"
-  | .skip => "skip"
-  | .precondition => "precondition"
-  | .drained ids => "drain " ++ commaOr (ids.map toString)
+/-- the tokens of a heap answer -/
+def ansToks : Ans → List String
+  | .ok => ["ok"]
+  | .okId e => ["ok", toString e]
+  | .min r => ["min", showOptNat r]
+  | .skip => ["skip"]
+  | .precondition => ["precondition"]
+  | .drained ids => ["drain", commaOr (ids.map toString)]
 
-def showTAns : TAns → String
-  | .ok => "ok"
-  | .skip => "skip"
-  | .precondition => "precondition"
-  | .tmin (some (sec, usec)) => s!"tmin {sec} {usec}"
-  | .tmin none => "tmin none"
-  | .rel (some (_, p)) => s!"rel {p}"
-  | .rel none => "rel none"
+/-- the tokens of a timer-queue answer: `rel` shows the pointer released, not the record -/
+def tansToks : TAns → List String
+  | .ok => ["ok"]
+  | .skip => ["skip"]
+  | .precondition => ["precondition"]
+  | .tmin (some (sec, usec)) => ["tmin", toString sec, toString usec]
+  | .tmin none => ["tmin", "none"]
+  | .rel (some (_, p)) => ["rel", toString p]
+  | .rel none => ["rel", "none"]
+
+/-- **the tokens of the L1 part** of a line (what the monitor reads: `Proofs/HeapAns.lean` proves
+`Heapmon.parseAns op.toI (l1Toks o) = some o.l1` for the output `o` of an operation `op`) -/
+def l1Toks : XOut → List String
+  | .h o => ansToks o.ans
+  | .t { ans := .drained ps, .. } => ["tdrain", commaOr (ps.map toString)]
+  | .t { ans := .ans a, .. } => tansToks a
 
 def showTL2 (x : TL2) : String :=
   s!"log=* a={showArr x.a} rc={commaOr (x.rc.map fun | some p => toString p | none => "?")}"
 
-def render : XOut → String
-  | .h { ans, l2 := none } => showAns ans
-  | .h { ans, l2 := some x } => s!"{showAns ans} | log={showLog x.notes} a={showArr x.a}"
-  | .t { ans := .drained ps, .. } => "tdrain " ++ commaOr (ps.map toString)
-  | .t { ans := .ans a, l2 := none } => showTAns a
-  | .t { ans := .ans (.rel (some (r, p))), l2 := some x } => s!"rel {p} | r={r} {showTL2 x}"
-  | .t { ans := .ans a, l2 := some x } => s!"{showTAns a} | {showTL2 x}"
+/-- the L2 part of a line (after ` | `), if it has one -/
+def l2Str : XOut → Option String
+  | .h { l2 := none, .. } => none
+  | .h { l2 := some x, .. } => some s!"log={showLog x.notes} a={showArr x.a}"
+  | .t { ans := .drained _, .. } => none
+  | .t { ans := .ans _, l2 := none } => none
+  | .t { ans := .ans (.rel (some (r, _))), l2 := some x } => some s!"r={r} {showTL2 x}"
+  | .t { ans := .ans _, l2 := some x } => some (showTL2 x)
+
+/-- the printed line: the L1 tokens joined by single spaces, then ` | ` and the L2 part -/
+def render (o : XOut) : String :=
+  " ".intercalate (l1Toks o) ++ (match l2Str o with | some s => " | " ++ s | none => "")
 
 def step (s : St) (toks : List String) : St × String :=
   match parse toks with
